@@ -819,6 +819,28 @@ func init() {
 		if tier == "thorough" {
 			k.MaxStmts = 6
 		}
+		if gen.Chance(t, "c09.metaheavy", 10) {
+			// many metadata writes over few holders and keys, with names and keys such that
+			// different (holder, key) pairs spell the same text when joined ("s:t"+":"+"k" =
+			// "s"+":"+"t:k"; "s"+"t.k" = "st"+".k" ...)
+			k.MinStmts, k.MaxStmts = 1, 2
+			ec := gen.NewTG(t, k).Case()
+			n := 3 + gen.Uniform(t, "c09.mh.n", 4)
+			for i := 0; i < n; i++ {
+				val := gen.NumI(int64(i + 1))
+				var st *gen.Stmt
+				if gen.Chance(t, "c09.mh.tx", 25) {
+					st = &gen.Stmt{Kind: gen.StCall, Call: &gen.Call{Fn: "set_tx_meta", Args: []*gen.Expr{gen.Str(gen.Pick(t, "c09.mh.txkey", []string{"k", "t:k", "k2"})), val}}}
+				} else {
+					st = &gen.Stmt{Kind: gen.StCall, Call: &gen.Call{Fn: "set_account_meta", Args: []*gen.Expr{
+						gen.Acct(gen.Pick(t, "c09.mh.acct", []string{"a", "b"})), gen.Str(gen.Pick(t, "c09.mh.key", []string{"k", "t:k", "k2"})), val}}}
+				}
+				at := gen.Uniform(t, "c09.mh.at", len(ec.Script.Stmts)+1)
+				ec.Script.Stmts = append(ec.Script.Stmts[:at], append([]*gen.Stmt{st}, ec.Script.Stmts[at:]...)...)
+			}
+			ec.Rename(gen.CollidingNames(1))
+			return ec
+		}
 		return gen.NewTG(t, k).Case()
 	}
 }
